@@ -104,3 +104,32 @@ def typed_list(self, e, st, spec):
 
 
 Engine.MODELS.append(typed_list)
+
+
+TRUSTED_SORTED = ("model:sorted(list, key=f) returns a permutation of the list (the ordering by key is NOT modelled: no obligation relies on it)")
+
+
+def sorted_list(self, e, st, spec):
+    """sorted(xs[, key=...]) on a by-value list: a fresh list ys with a Skolem bijection p: ys[i] == xs[p(i)].
+    The key function is not evaluated (in CPython it is called once per element; the modelled callers pass pure keys - a key that
+    raises would surface in the bounded oracle, not here)."""
+    if ast.unparse(e.func) != "sorted" or len(e.args) != 1 or any(k.arg not in ("key", "reverse") for k in e.keywords) or spec:
+        return NotImplemented
+    v = self.ev(e.args[0], st, spec)
+    if not isinstance(v, SList):
+        return NotImplemented
+    n = v.length
+    new = Lifted.fresh(v.get(z3.IntVal(0)), "sorted")
+    p = z3.Function(V.fresh_name("perm"), I, I)
+    q = z3.Function(V.fresh_name("perm_inv"), I, I)
+    i = V.fresh("i", I)
+    old = v.get(p(i))
+    eqs = [c_new[i] == c for c_new, c in zip(new.cs, V.comps(old))]
+    st.assume(z3.ForAll(i, z3.Implies(z3.And(0 <= i, i < n), z3.And(0 <= p(i), p(i) < n, q(p(i)) == i, *eqs)), patterns=[p(i)]))
+    st.assume(z3.ForAll(i, z3.Implies(z3.And(0 <= i, i < n), z3.And(0 <= q(i), q(i) < n, p(q(i)) == i)), patterns=[q(i)]))
+    self.used_models.add(TRUSTED_SORTED)
+    self.last_perm = (p, q)
+    return SList(n, new)
+
+
+Engine.MODELS.append(sorted_list)
